@@ -6,6 +6,7 @@ import (
 	"time"
 
 	"github.com/ipld/go-ipld-prime/datamodel"
+	"github.com/ipld/go-ipld-prime/node/basicnode"
 	"github.com/libp2p/go-libp2p/core/crypto"
 	"github.com/libp2p/go-libp2p/core/crypto/pb"
 
@@ -96,8 +97,11 @@ func VerifC07Dlg() {
 	case 2:
 		opts = append(opts, WithNonce(vBytes("nonce", 13)))
 	}
-	if vChoose("with_meta", 2) == 1 {
+	switch vChoose("with_meta", 3) {
+	case 1:
 		opts = append(opts, WithMeta("k", c07Int("meta")))
+	case 2: // an IPLD node is an accepted metadata value and is taken as it is
+		opts = append(opts, WithMeta("k", basicnode.NewInt(vI64("meta_node"))))
 	}
 	var pol policy.Policy
 	if vChoose("with_policy", 2) == 1 {
